@@ -219,10 +219,32 @@ def main():
     samples = []
     if not any(k in ("harness-build",) for k, _ in fails) and os.path.exists(ctx.model if hasattr(ctx, "model") else "/nonexistent"):
         hists, steps = (6, 300) if tier == "quick" else (64, 1200)
-        corpus = sorted(glob.glob(os.path.join(VERIF, "harness/corpus", "*.json")))
+        outputs = []
+        # corpus first: committed replays of known and fixed findings, minimised past failures
+        corpus = sorted(glob.glob(os.path.join(VERIF, "findings", "*.json")) + glob.glob(os.path.join(VERIF, "harness/corpus", "*.json")))
+        cdir = os.path.join(ctx.dir, "corpus"); os.makedirs(cdir, exist_ok=True)
+        for c in corpus:
+            try:
+                meta = json.load(open(c))
+            except Exception:
+                continue
+            if prop not in meta.get("properties", [prop]):
+                continue
+            tr = os.path.join(cdir, os.path.basename(c) + "l"); mo = tr + ".out"
+            if not os.path.exists(mo):
+                with open(tr + ".tmp", "w") as fout:
+                    subprocess.run([ctx.drive, "-replay", c], stdout=fout, stderr=subprocess.DEVNULL, timeout=600)
+                os.replace(tr + ".tmp", tr)
+                with open(tr) as fin, open(mo + ".tmp", "w") as fout:
+                    subprocess.run([ctx.model], stdin=fin, stdout=fout, stderr=subprocess.STDOUT)
+                os.replace(mo + ".tmp", mo)
+            runs.append({"corpus": os.path.relpath(c, VERIF)})
+            outputs.append((tr, mo))
         for profile in fp["profiles"]:
             tr, mo = run_traces(ctx, profile, seed, hists, steps)
             runs.append({"profile": profile, "seed": seed, "histories": hists, "steps_per_history": steps})
+            outputs.append((tr, mo))
+        for tr, mo in outputs:
             for line in open(mo):
                 m = LINE.match(line)
                 if not m: continue
@@ -233,7 +255,7 @@ def main():
                     opcount[kv.get("op", "?")] = opcount.get(kv.get("op", "?"), 0) + 1
                     rescount[kv.get("op", "?") + ":" + kv.get("res", "?")] = rescount.get(kv.get("op", "?") + ":" + kv.get("res", "?"), 0) + 1
                     if len(samples) < 3 and kv.get("op") not in ("advance", "begin", "end"):
-                        samples.append({"profile": profile, "hist": kv.get("hist"), "i": kv.get("i"), "op": kv.get("op"), "res": kv.get("res")})
+                        samples.append({"trace": os.path.basename(tr), "hist": kv.get("hist"), "i": kv.get("i"), "op": kv.get("op"), "res": kv.get("res")})
                 elif kind == "MISMATCH":
                     if (("*" in ops) or kv.get("op") in ops) and kv.get("field") in fields:
                         mism.append((tr, kv, line.strip()[:600]))
@@ -253,10 +275,21 @@ def main():
         return path
     reproduced = {}
     unexplained = []
-    for tr, kv, line in hits:
-        k = next((k for k in known if k.get("clause") == kv.get("clause") and all(kv.get(x) == k[x] for x in ("site", "cls") if x in k)), None)
-        if k: reproduced.setdefault(k["id"], (k, line))
-        else: unexplained.append((tr, kv, line))
+    tainted = {}   # history -> step of the first known-finding hit; later hits in that history are consequences
+    ntainted = 0
+    def step_of(kv):
+        return int(kv["i"]) if kv.get("i", "").isdigit() else -1
+    for tr, kv, line in sorted(hits, key=lambda h: (h[0], int(h[1].get("hist", 0)), step_of(h[1]))):
+        hkey = (tr, kv.get("hist"))
+        if hkey in tainted and step_of(kv) >= tainted[hkey]:
+            ntainted += 1
+            continue
+        k = next((k for k in known if k.get("clause") == kv.get("clause") and k.get("cls", kv.get("cls")) == kv.get("cls")), None)
+        if k:
+            reproduced.setdefault(k["id"], (k, line))
+            tainted[hkey] = step_of(kv)
+        else:
+            unexplained.append((tr, kv, line))
     exit_code = 0
     for kid, (k, line) in reproduced.items():
         print(f"KNOWN-FINDING: property={prop} {k['_line'][len('finding:'):].strip()}")
@@ -295,7 +328,7 @@ def main():
             "correspondence": {"runs": runs, "steps": steps_total, "compared_steps": compared, "footprint_ops": sorted(ops), "footprint_fields": sorted(fields),
                                "mismatches_in_footprint": len(mism), "op_histogram": opcount, "op_result_histogram": rescount},
             "traces_validated_against_impl": compared,
-            "monitor_hits": len(hits), "known_findings_reproduced": sorted(reproduced.keys()),
+            "monitor_hits": len(hits), "hits_after_known_finding_in_same_history": ntainted, "known_findings_reproduced": sorted(reproduced.keys()),
             "evaluations": steps_total, "samples": samples or [{"note": "no runs"}],
             "tree_hash": ctx.hash,
         },
